@@ -199,10 +199,18 @@ def expected(case):
             x, k = I(4), I(5)
             if k < 0:
                 return "PANIC"
+            if k >= (1 << 40):      # beyond any representable length: right shifts saturate, left shifts of non-zero values cannot be built
+                if a[2] == "l":
+                    return "0" if x == 0 else "PANIC"
+                return hx(-1 if x < 0 else 0)
             return hx(x << k) if a[2] == "l" else hx(x >> k)
         if op == "powf":
+            if abs(I(3)) > 1 and I(4) >= (1 << 128):
+                return "PANIC"      # a BigUint exponent that does not fit u128: documented "memory overflow" panic
             return hx(I(3) ** I(4))
         if op in ("upow_big_rv", "upow_big_rr", "ipow_big", "ipow_big_rv", "ipow_u8", "ipow_u128", "upow_u64"):
+            if abs(I(0)) > 1 and I(1) >= (1 << 128):
+                return "PANIC"
             return hx(I(0) ** I(1))
         if op in ("uadd", "uadd_vv", "uadd_vr", "uadd_assign", "uadd_u32", "uadd_u64", "uadd_u128", "iadd", "iadd_vv", "iadd_vr", "iadd_rv", "iadd_assign", "iadd_i64"):
             return hx(I(0) + I(1))
@@ -268,6 +276,8 @@ def expected(case):
                 x = x + m
             return opt(hx(x))
         if op in ("upow", "ipow", "upow_big"):
+            if abs(I(0)) > 1 and I(1) >= (1 << 128):
+                return "PANIC"
             return hx(I(0) ** I(1))
         if op in ("ugcd", "igcd"):
             return hx(math.gcd(I(0), I(1)))
@@ -843,6 +853,41 @@ def scalar_cases(rng, ops, bigs=None):
     return cases
 
 
+def pow_cases(rng):
+    """every Pow form and exponent type, exponent bit patterns, BigUint exponents at the u64 / u128 edges, unrepresentable powers"""
+    cases = []
+    # every Pow form: {BigUint, BigInt} x {u8..u128, usize, BigUint exponent} x {base, exponent by value / by reference}
+    for a in (0, 1, 2, 3, B64 + 1):
+        for e in (0, 1, 2, 3, 6, 7):
+            for ty in ("u8", "u16", "u32", "u64", "usize", "u128", "big"):
+                for form in ("vv", "vr", "rv", "rr"):
+                    cases.append(("powf", "u", ty, form, hx(a), hx(e)))
+                    cases.append(("powf", "i", ty, form, hx(-a), hx(e)))
+                    if a > 1 and e in (2, 3):
+                        cases.append(("powf", "i", ty, form, hx(a), hx(e)))
+    # exponents with every pattern of trailing zero bits and set bits, a few hundred; BigUint exponents at the u64 / u128 edges (bases 0, 1)
+    for a in (2, 3, -3, 10, B64 - 1, -(B64 + 1)):
+        for e in (14, 18, 20, 24, 28, 36, 40, 48, 63, 65, 96, 129, 192, 200, 256, 300, 384, 511, 512):
+            if abs(a) > 10 and e > 129:
+                continue
+            cases.append(("ipow", hx(a), hx(e)))
+            if a > 0:
+                cases.append(("upow", hx(a), hx(e)))
+                cases.append(("upow_big", hx(a), hx(e)))
+    for a in (2, 3, B64 + 1):
+        for e in (1 << 128, (1 << 128) + 5, (1 << 129) + 3, (1 << 191) + 1, (1 << 192) + 2, (5 << 192) + 7, (1 << 256) + 1, (1 << 320)):
+            for form in ("vv", "vr", "rv", "rr"):
+                cases.append(("powf", "u", "big", form, hx(a), hx(e)))
+                cases.append(("powf", "i", "big", form, hx(-a), hx(e)))
+    for a in (0, 1):
+        for e in (B64 - 1, B64, B64 + 1, (1 << 128) - 1, 1 << 128, (1 << 128) + 1, 1 << 200):
+            for op in ("upow_big", "upow_big_rv", "upow_big_rr"):
+                cases.append((op, hx(a), hx(e)))
+            cases.append(("ipow_big", hx(-a), hx(e)))
+            cases.append(("ipow_big", hx(-a), hx(e + 1)))
+    return cases
+
+
 def bank(pid, tier, seed):
     if pid == "C14":
         # "fails only in documented cases" spans the other properties' operations
@@ -1218,6 +1263,16 @@ def bank(pid, tier, seed):
                 for form in ("v", "r", "a"):
                     cases.append(("shf", "i", ty, "l", form, hx(-(B64 + 5)), hx(k)))
                     cases.append(("shf", "u", ty, "l", form, hx(B64 + 5), hx(k)))
+            if w >= 63:
+                # amounts whose digit count does not fit usize (u128 / i128), and the largest amounts of the 64-bit types
+                for k in sorted(set([kmax, kmax - 1] + ([1 << 70, (1 << 70) + 3, 1 << 100] if w >= 127 else []))):
+                    for form in ("v", "r", "a"):
+                        cases.append(("shf", "u", ty, "r", form, hx(12345), hx(k)))
+                        cases.append(("shf", "i", ty, "r", form, hx(-987654321), hx(k)))
+                        cases.append(("shf", "i", ty, "r", form, hx(B64 + 1), hx(k)))
+                        cases.append(("shf", "u", ty, "r", form, hx(0), hx(k)))
+                        cases.append(("shf", "u", ty, "l", form, hx(0), hx(k)))
+                        cases.append(("shf", "i", ty, "l", form, hx(0), hx(k)))
             if ty.startswith("i"):
                 for form in ("v", "r", "a"):
                     cases.append(("shf", "i", ty, "r", form, hx(-5), hx(-1)))
@@ -1429,30 +1484,7 @@ def bank(pid, tier, seed):
                         for d in ("l", "r"):
                             cases.append(("shf", "u", ty, d, form, hx(x), hx(k)))
                             cases.append(("shf", "i", ty, d, form, hx(-x), hx(k)))
-        # every Pow form: {BigUint, BigInt} x {u8..u128, usize, BigUint exponent} x {base, exponent by value / by reference}
-        for a in (0, 1, 2, 3, B64 + 1):
-            for e in (0, 1, 2, 3, 6, 7):
-                for ty in ("u8", "u16", "u32", "u64", "usize", "u128", "big"):
-                    for form in ("vv", "vr", "rv", "rr"):
-                        cases.append(("powf", "u", ty, form, hx(a), hx(e)))
-                        cases.append(("powf", "i", ty, form, hx(-a), hx(e)))
-                        if a > 1 and e in (2, 3):
-                            cases.append(("powf", "i", ty, form, hx(a), hx(e)))
-        # exponents with every pattern of trailing zero bits and set bits, a few hundred; BigUint exponents at the u64 / u128 edges (bases 0, 1)
-        for a in (2, 3, -3, 10, B64 - 1, -(B64 + 1)):
-            for e in (14, 18, 20, 24, 28, 36, 40, 48, 63, 65, 96, 129, 192, 200, 256, 300, 384, 511, 512):
-                if abs(a) > 10 and e > 129:
-                    continue
-                cases.append(("ipow", hx(a), hx(e)))
-                if a > 0:
-                    cases.append(("upow", hx(a), hx(e)))
-                    cases.append(("upow_big", hx(a), hx(e)))
-        for a in (0, 1):
-            for e in (B64 - 1, B64, B64 + 1, (1 << 128) - 1, 1 << 128, (1 << 128) + 1, 1 << 200):
-                for op in ("upow_big", "upow_big_rv", "upow_big_rr"):
-                    cases.append((op, hx(a), hx(e)))
-                cases.append(("ipow_big", hx(-a), hx(e)))
-                cases.append(("ipow_big", hx(-a), hx(e + 1)))
+        cases += pow_cases(rng)
         for a, _ in pairs(4):
             for s in (0, 1, 2, 127, 128, 255, (1 << 63), B64 - 1):
                 cases.append(("i8_rem_assign_u", hx(-128), hx(s)))
@@ -1514,6 +1546,7 @@ def bank(pid, tier, seed):
             cases.append(("inth_root", hx(-a), hx(2)))
             cases.append(("isqrt", hx(-a)))
     elif pid == "C12":
+        cases += pow_cases(rng)
         for a in [0, 1, 2, 3, B64 - 1, B64, big(rng, 2), big(rng, 3)]:
             for e in (0, 1, 2, 3, 4, 5, 6, 7, 8, 9, 10, 11, 12, 13, 15, 16, 17, 21, 31, 32, 33, 64, 100, 127, 255):
                 cases.append(("upow", hx(a), hx(e)))
